@@ -19,6 +19,7 @@ import (
 const modulePath = "github.com/deepteams/webp"
 
 type World struct {
+	RepoDir   string
 	Fset      *token.FileSet
 	Prog      *ssa.Program
 	Pkgs      map[string]*ssa.Package // by import path
@@ -46,6 +47,8 @@ type World struct {
 	failedInit    map[string]bool
 	initNotes     []string
 	regionGlobals map[*ssa.Global]uint64 // array globals that are sliced: live in element regions
+	caseMask      int
+	caseActive    bool
 	poolPuts      map[*ssa.Global][]int
 	poolBad       map[*ssa.Global]bool
 
@@ -66,6 +69,7 @@ func loadWorld(dir string, patterns []string, tags string) (*World, error) {
 		},
 	}
 	w.tagTypes = append(w.tagTypes, nil)
+	w.RepoDir = dir
 	env := append(os.Environ(), "GOFLAGS=-mod=mod", "GOPROXY=off")
 	if goarch := os.Getenv("GOVC_GOARCH"); goarch != "" {
 		env = append(env, "GOARCH="+goarch)
